@@ -343,10 +343,13 @@ pub fn apply(op: &Op, t: AffTree<2>, operand: &Operand, case: u64, step: usize) 
             }
             Op::ComposeSchema(_, p) | Op::ComposeTree(_, p) => {
                 let g = operand.tree.as_ref().unwrap();
-                if *p {
-                    t.compose::<true, false>(g);
-                } else {
-                    t.compose::<false, false>(g);
+                // the VERBOSE const parameter (progress bar only) is switched on for one step in seven
+                let verbose = (case as usize + step) % 7 == 0;
+                match (*p, verbose) {
+                    (true, false) => t.compose::<true, false>(g),
+                    (false, false) => t.compose::<false, false>(g),
+                    (true, true) => t.compose::<true, true>(g),
+                    (false, true) => t.compose::<false, true>(g),
                 }
                 t
             }
